@@ -32,6 +32,7 @@ pub struct Base<G: Cv> {
     pub gates: usize,
     pub bytes: Vec<u8>,
     pub comms: Vec<G>,
+    pub obj: R1CSProof<G>,
 }
 
 fn bases<G: Cv>(env: &Env<G>, seed: u64) -> Vec<Base<G>> {
@@ -44,7 +45,8 @@ fn bases<G: Cv>(env: &Env<G>, seed: u64) -> Vec<Base<G>> {
             let (n1, n2) = if two { (g / 2, g - g / 2) } else { (g, 0) };
             let prog = size_program(Kind::M, n1, n2);
             let pr = program::prove::<G>(&prog, &env.pc, &env.bp, seed, "c08", Dev::None);
-            out.push(Base { prog, gates: g, bytes: pr.proof.expect("base proof"), comms: pr.commitments });
+            let obj = pr.obj.clone().expect("base proof object");
+            out.push(Base { prog, gates: g, bytes: pr.proof.expect("base proof"), comms: pr.commitments, obj });
         }
     }
     out
@@ -194,7 +196,7 @@ fn run_case<G: Cv>(env: &Env<G>, bs: &[Base<G>], c: &Case, seed: u64) -> (String
         Err(m) => return ("PANIC".into(), format!("verify panicked: {}", m)),
         Ok(ok) => results.push(ok),
     }
-    let valid = R1CSProof::<G>::from_bytes(&b.bytes).unwrap();
+    let valid = b.obj.clone();
     for order in 0..3 {
         let r = guarded(|| {
             let mut t1 = Transcript::new(program::LABEL);
